@@ -302,8 +302,8 @@ func (e *c07env) conn(stream []byte, desc string) string {
 				x = 1
 			}
 			decision = fmt.Sprintf("proxy uid=%s sid=%d existing=%d", hx(uid), sid, x)
-			e.active[hx(uid)] = true
 			e.checkAccepted("dispatch", desc, tr, pkt, false)
+			e.active[hx(uid)] = true
 		} else {
 			decision = "admin"
 			e.checkAccepted("dispatch", desc, tr, pkt, true)
